@@ -408,6 +408,8 @@ func canonKey(k value) (any, bool) {
 		return k, true
 	case rtype:
 		return "rtype:" + k.t.String(), true
+	case rvalue:
+		panic(unsupported("reflect.Value as map key"))
 	}
 	panic(unsupported("map key of dynamic type %T", k))
 }
